@@ -142,12 +142,15 @@ def apply_step(rng, ix, a, op):
             st.expect_dense = a
             st.req = {"op": "iidx", "m": "slices1d", "self": st.pre}
         elif op == "reindexed":
-            mapping, kind = I.gen_mapping(rng, ix, a)
+            # in a well-formed index no row is listed twice under one column, so merged row ids never repeat and the
+            # caller may always promise `assume_unique=True`
+            au = rng.random() < 0.35
+            mapping, kind = I.gen_mapping(rng, ix, a, prefer_merge=au)
             copy_flag = rng.random() < 0.7
             st.args = {"mapping": None if mapping is None else [[int(k), int(v)] for k, v in mapping.items()],
-                       "kind": kind, "copy": copy_flag}
+                       "kind": kind, "copy": copy_flag, "assume_unique": au}
             mc = None if mapping is None else dict(mapping)
-            new_ix = ix.reindexed(mapping, copy=copy_flag)
+            new_ix = ix.reindexed(mapping, copy=copy_flag, assume_unique=True) if au else ix.reindexed(mapping, copy=copy_flag)
             if mc != mapping:
                 st.fails.append(("C06", "C06-operand-changed", "reindexed() changed its mapping"))
             operands.append(("receiver", ix, pre_snapshot))
@@ -155,7 +158,7 @@ def apply_step(rng, ix, a, op):
                 must_not_share.append((new_ix, ix))
             st.expect_dense = I.np_reindexed(a, mapping, ix.common)
             new_a = st.expect_dense
-            st.req = {"op": "iidx", "m": "reindexed", "self": st.pre, "mapping": st.args["mapping"]}
+            st.req = {"op": "iidx", "m": "reindexed", "self": st.pre, "mapping": st.args["mapping"], "assume_unique": au}
         elif op == "collapsed":
             present = sorted(set(a.reshape(-1).tolist()) | {int(ix.common)})
             pool = present + [-1, 9]
